@@ -10,6 +10,7 @@ import (
 
 	"github.com/gofiber/fiber/v3/binder"
 	"github.com/gofiber/utils/v2"
+	"github.com/tinylib/msgp/msgp"
 	"github.com/valyala/bytebufferpool"
 )
 
@@ -296,9 +297,14 @@ func (r *Redirect) Back(fallback ...string) error {
 // parseAndClearFlashMessages is a method to get flash messages before they are getting removed
 func (r *Redirect) parseAndClearFlashMessages() {
 	// parse flash messages
-	cookieValue := r.c.Cookies(FlashCookieName)
+	cookieValue := r.c.app.getBytes(r.c.Cookies(FlashCookieName))
 
-	_, err := r.c.flashMessages.UnmarshalMsg(r.c.app.getBytes(cookieValue))
+	// Every message takes at least one byte: refuse a header announcing more than the cookie holds
+	if n, rest, err := msgp.ReadArrayHeaderBytes(cookieValue); err != nil || uint64(n) > uint64(len(rest)) {
+		return
+	}
+
+	_, err := r.c.flashMessages.UnmarshalMsg(cookieValue)
 	if err != nil {
 		return
 	}
